@@ -4,7 +4,7 @@
    so every theorem holds for all callbacks that add/remove callbacks (themselves included) or raise
    at any point.  Examples.v (imported so that it is re-checked) has concrete non-trivial instances,
    the pre-fix loop's failure, and the duplicate-registration quirk. *)
-From CF Require Import Common.Bytes C07.Model C07.Proofs C07.Examples.
+From CF Require Import Common.Bytes C07.Model C07.Proofs C07.Proofs_x C07.Examples.
 From Coq Require Import Sorting.Sorted.
 Open Scope Z_scope.
 
@@ -167,3 +167,55 @@ Print Assumptions C07_every_header_every_payload_exactly_once.
 Theorem C07_registration_kinds_all_headers : forall h c, 0 <= h < 256 -> kinds_match h c = true.
 Proof. exact kinds_match_header. Qed.
 Print Assumptions C07_registration_kinds_all_headers.
+
+(* ---- table operations from ANOTHER THREAD during a dispatch (Model.v: dispatch_x, hand-over points) ---- *)
+(* Exactly what the snapshot semantics guarantees, for every behaviour of the callbacks and every schedule `ext` of
+   operations by other threads at the hand-over points: the port callbacks called for packet n are the matching
+   registrations of the table at the instant the list is built (`snap_state`), once each, in table order. *)
+Theorem C07_other_thread_snapshot_semantics : forall beh ext n h s log s' log',
+  dispatch_x beh ext n h s log = (s', log', true) ->
+  exists s1 log1,
+    snap_state beh ext n s log = (s1, log1, true) /\
+    log1 = all_entries n (alls (run_ext s (ext (PStart n)))) ++ log /\
+    log' = port_entries n (filter (matches h) (cbs s1)) ++ log1.
+Proof. exact dispatch_x_snapshot. Qed.
+Print Assumptions C07_other_thread_snapshot_semantics.
+
+(* A registration that nobody adds or removes until the matching registrations are collected — in particular one that
+   is present (or absent) during the WHOLE dispatch — is called as often as it is registered (once) if it matches and
+   never otherwise; what any thread does to it AFTER that instant (remove it, add it) does not change this packet's
+   deliveries: a registration removed then is still called once, one added then is not called. *)
+Theorem C07_other_thread_exactly_once : forall beh ext n h s log s' log' r,
+  quiet_until_snapshot (fun x => reg_eqb x r) beh ext n s log ->
+  dispatch_x beh ext n h s log = (s', log', true) ->
+  exists ports,
+    log' = port_entries n ports ++ all_entries n (alls (run_ext s (ext (PStart n)))) ++ log /\
+    count_occ reg_eq_dec ports r = if matches h r then count_occ reg_eq_dec (cbs s) r else 0%nat.
+Proof. exact dispatch_x_exactly_once. Qed.
+Print Assumptions C07_other_thread_exactly_once.
+
+Theorem C07_other_thread_order_and_no_other : forall P beh ext n h s log s' log',
+  quiet_until_snapshot P beh ext n s log ->
+  dispatch_x beh ext n h s log = (s', log', true) ->
+  exists ports,
+    log' = port_entries n ports ++ all_entries n (alls (run_ext s (ext (PStart n)))) ++ log /\
+    Forall (fun r => matches h r = true) ports /\
+    filter P ports = filter P (filter (matches h) (cbs s)).
+Proof. exact dispatch_x_deliveries. Qed.
+Print Assumptions C07_other_thread_order_and_no_other.
+
+(* A registration added or removed at ANY time during the dispatch is called at most as often as it is in the table at
+   the snapshot instant: at most once for distinct registrations. *)
+Theorem C07_other_thread_at_most_once : forall beh ext n h s log s' log' r,
+  dispatch_x beh ext n h s log = (s', log', true) ->
+  exists s1 log1, snap_state beh ext n s log = (s1, log1, true) /\
+    log' = port_entries n (filter (matches h) (cbs s1)) ++ log1 /\
+    (count_occ reg_eq_dec (filter (matches h) (cbs s1)) r <= count_occ reg_eq_dec (cbs s1) r)%nat /\
+    (NoDup (cbs s1) -> count_occ reg_eq_dec (filter (matches h) (cbs s1)) r <= 1)%nat.
+Proof. exact dispatch_x_at_most_once. Qed.
+Print Assumptions C07_other_thread_at_most_once.
+
+(* conservative: with no other thread, dispatch_x is dispatch (so all theorems above remain about the same code) *)
+Theorem C07_no_other_thread : forall beh n h s log, dispatch_x beh (fun _ => []) n h s log = dispatch beh n h s log.
+Proof. exact dispatch_x_none. Qed.
+Print Assumptions C07_no_other_thread.
